@@ -1,4 +1,5 @@
 import Mdsort.Proofs.Lex
+import Mdsort.Proofs.LexLiteral
 import Mdsort.Proofs.World
 import Mdsort.Proofs.ConfErrors
 import Mdsort.Proofs.ConfRT5
@@ -50,11 +51,38 @@ theorem C14_tokens_read_back :
   ⟨fun sflag kw tokname rest hk hr => Proofs.lex_keyword sflag kw tokname rest hk hr,
    fun pflag sflag b rest h1 h2 h3 h4 => Proofs.lex_string_roundtrip pflag sflag b rest h1 h2 h3 h4⟩
 
-/-- Age literals: below 2^32 read back exactly, at or above 2^32 are diagnosed. -/
-theorem C14_int_literals (sflag : Bool) (n : Nat) (rest : Bytes) (hr : ∀ c, rest.head? = some c → isdigit c = false) :
-    let r := lex1 false sflag false ((toString n).toUTF8.toList ++ rest)
-    (n < 2 ^ 32 → r = { tok := .int n, rest := rest, errors := 0 }) ∧ (n ≥ 2 ^ 32 → r.errors ≥ 1 ∧ r.rest = rest) :=
-  Proofs.lex_int sflag n rest hr
+/-- Integer literals: for EVERY non-empty string of decimal digits `ds` - of any length, with or without
+leading zeros - after any white space and before anything that is not a digit, the lexer returns the
+value `Spec.decimal ds` exactly and without a diagnostic when it is at most UINT32_MAX, and reports a
+diagnostic otherwise; it is accepted IFF the value fits.  There is no length or value (2^64, 2^64 + 60,
+2^96, ...) at which a too-large literal becomes acceptable again; all digits are consumed either way. -/
+theorem C14_int_literals (sflag : Bool) (sp ds rest : Bytes) (hsp : ∀ x ∈ sp, isspace x = true) (hne : ds ≠ [])
+    (hd : ∀ d ∈ ds, isdigit d = true) (hr : ∀ c, rest.head? = some c → isdigit c = false) :
+    let r := lex1 false sflag false (sp ++ ds ++ rest)
+    (Spec.decimal ds < 2 ^ 32 → r = { tok := .int (Spec.decimal ds), rest := rest, errors := 0 }) ∧
+    (2 ^ 32 ≤ Spec.decimal ds → r.errors ≥ 1 ∧ r.rest = rest) ∧
+    (r.errors = 0 ↔ Spec.decimal ds < 2 ^ 32) :=
+  Proofs.lex_digits sflag sp ds rest hsp hne hd hr
+
+/-- `Spec.decimal` is the usual reading: the canonical decimal form of `n` denotes `n`, and leading zeros
+change nothing.  Hence the earlier form of the statement: the literal `n` reads back exactly below 2^32
+and is diagnosed from 2^32 on. -/
+theorem C14_int_literals_decimal (sflag : Bool) (n : Nat) (rest : Bytes) (hr : ∀ c, rest.head? = some c → isdigit c = false) :
+    Spec.decimal (toString n).toUTF8.toList = n ∧
+    (∀ k ds, Spec.decimal (List.replicate k 48 ++ ds) = Spec.decimal ds) ∧
+    (let r := lex1 false sflag false ((toString n).toUTF8.toList ++ rest)
+     (n < 2 ^ 32 → r = { tok := .int n, rest := rest, errors := 0 }) ∧ (n ≥ 2 ^ 32 → r.errors ≥ 1 ∧ r.rest = rest)) :=
+  ⟨Proofs.decimal_toString n, Proofs.decimal_leading_zeros, Proofs.lex_int sflag n rest hr⟩
+
+/-! Non-vacuity of `C14_int_literals`: `000060` is 60; 2^64 + 60, 2 * 2^64 + 3600 and 2^96 + 86400 (values a 64-bit
+accumulator would wrap to a valid age) are diagnosed, inside a whole file as well. -/
+example : lex1 false false false "  000060 s".toUTF8.toList = { tok := .int 60, rest := " s".toUTF8.toList, errors := 0 } := by
+  decide +kernel
+example : (lex1 false false false "18446744073709551676 seconds".toUTF8.toList).errors = 1 ∧
+    (lex1 false false false "36893488147419106832 seconds".toUTF8.toList).errors = 1 ∧
+    (lex1 false false false "79228162514264337593543950336 days".toUTF8.toList).errors = 1 := by decide +kernel
+example : parseConfig [] [] (fun _ => true) "maildir \"q\" { match date > 18446744073709551676 seconds break }".toUTF8.toList = .error 1 :=
+  Proofs.Conf.error_of_isErrorAt (by decide +kernel)
 
 /-! ## The parser (Model/Conf.lean: the grammar of parse.y with its semantic actions) -/
 
@@ -186,6 +214,70 @@ theorem C14_error_macro_redefined (ms : List Macro) (name value : Bytes) (lno : 
     (isPathMacro name = true → macrosInsert ms name value lno false = none) ∧
     ((∃ m ∈ ms, m.name = name) → (∀ m ∈ ms, m.name = name → m.sticky = false) → macrosInsert ms name value lno false = none) :=
   Proofs.Conf.macro_redefined ms name value lno
+
+/-- Macros are looked up by their exact name: a reference resolves IFF the table holds a macro of exactly
+that name, and then to the value of (the first) such macro; and a definition under a name that no macro of
+the table bears exactly - in particular a proper prefix or an extension of defined names (`in` after `inbox`,
+`ab` next to `a` and `abc`), or the empty name - is entered, after everything defined before, whatever else
+is defined. -/
+theorem C14_macro_exact_name (ms : List Macro) (name : Bytes) :
+    ((macrosUse ms name).isSome = true ↔ ∃ m ∈ ms, m.name = name) ∧
+    (∀ v ms', macrosUse ms name = some (v, ms') → ∃ m ∈ ms, m.name = name ∧ m.value = v) ∧
+    (∀ value lno sticky, isPathMacro name = false → (∀ m ∈ ms, m.name ≠ name) →
+      macrosInsert ms name value lno sticky = some (ms ++ [{ name := name, value := value, lno := lno, sticky := sticky }])) := by
+  refine ⟨?_, ?_, ?_⟩
+  · unfold macrosUse
+    cases h : ms.find? (fun m => m.name == name) with
+    | none =>
+      simp only [Option.isSome_none, Bool.false_eq_true, false_iff, not_exists, not_and]
+      intro m hm hn
+      have := List.find?_eq_none.mp h m hm
+      simp [hn] at this
+    | some m =>
+      simp only [Option.isSome_some, true_iff]
+      exact ⟨m, List.mem_of_find?_eq_some h, by simpa using List.find?_some h⟩
+  · intro v ms' h
+    unfold macrosUse at h
+    cases hf : ms.find? (fun m => m.name == name) with
+    | none => rw [hf] at h; cases h
+    | some m =>
+      rw [hf] at h
+      simp only [Option.some.injEq, Prod.mk.injEq] at h
+      exact ⟨m, List.mem_of_find?_eq_some hf, by simpa using List.find?_some hf, h.1⟩
+  · intro value lno sticky hp hnew
+    have hany : (ms.any fun m => m.name == name) = false := by
+      simp only [List.any_eq_false, beq_iff_eq]
+      exact fun m hm => hnew m hm
+    simp [macrosInsert, hp, hany]
+
+/-! Whole files: a name that is a prefix of an earlier macro is a macro of its own (both orders are accepted, each
+reference gets the value of exactly its macro), an undefined name that is a prefix or an extension of a defined one - or
+the empty name - is unknown, and a definition is refused only under exactly the same name. -/
+example : (match parseConfig [] [] (fun _ => true)
+      "inbox = \"I\"\nin = \"N\"\nmaildir \"${in}\" { match all move \"${inbox}\" }".toUTF8.toList with
+    | .ok [⟨[[78]], .block _ (.mtch _ _ (.leaf (.move _ [73])))⟩] => true | _ => false) = true ∧
+    (match parseConfig [] [] (fun _ => true)
+      "in = \"N\"\ninbox = \"I\"\nmaildir \"${in}\" { match all move \"${inbox}\" }".toUTF8.toList with
+    | .ok [⟨[[78]], .block _ (.mtch _ _ (.leaf (.move _ [73])))⟩] => true | _ => false) = true := by decide +kernel
+example :
+    Proofs.Conf.isErrorAt 2 (parseConfig [] [] (fun _ => true) "dst = \"d\"\nmaildir \"${dst}\" { match all move \"${ds}\" }".toUTF8.toList) = true ∧
+    Proofs.Conf.isErrorAt 2 (parseConfig [] [] (fun _ => true) "dst = \"d\"\nmaildir \"${dst}\" { match all move \"${dsts}\" }".toUTF8.toList) = true ∧
+    Proofs.Conf.isErrorAt 2 (parseConfig [] [] (fun _ => true) "dst = \"d\"\nmaildir \"${dst}\" { match all move \"${}\" }".toUTF8.toList) = true ∧
+    Proofs.Conf.isErrorAt 1 (parseConfig [] [([100, 115, 116], [100])] (fun _ => true) "maildir \"q\" { match all move \"${ds}\" }".toUTF8.toList) = true ∧
+    Proofs.Conf.isErrorAt 3 (parseConfig [] [] (fun _ => true)
+      "in = \"N\"\ninbox = \"I\"\nin = \"M\"\nmaildir \"${in}\" { match all move \"${inbox}\" }".toUTF8.toList) = true := by decide +kernel
+
+/-! Path lists of `maildir` blocks: the grammar accepts the empty list `maildir { } { ... }` (a block that applies to no
+maildir; `reject` is then not "outside stdin"); with `reject` anywhere in the block, EVERY path must be the standard input
+(`C14_error_classes_block`): a real maildir in any position rejects the file. -/
+example :
+    Proofs.Conf.isOkNonempty (parseConfig [] [] (fun _ => true) "maildir { } { match all reject }".toUTF8.toList) = true ∧
+    Proofs.Conf.isOkNonempty (parseConfig [] [] (fun _ => true) "maildir { } { match new { match all reject } }".toUTF8.toList) = true ∧
+    Proofs.Conf.isOkNonempty (parseConfig [] [] (fun _ => true) "maildir { \"/dev/stdin\" \"/dev/stdin\" } { match all reject }".toUTF8.toList) = true ∧
+    Proofs.Conf.isErrorAt 1 (parseConfig [] [] (fun _ => true) "maildir { \"/dev/stdin\" \"b\" } { match new reject match all move \"d\" }".toUTF8.toList) = true ∧
+    Proofs.Conf.isErrorAt 1 (parseConfig [] [] (fun _ => true) "maildir { \"b\" \"/dev/stdin\" } { match all reject }".toUTF8.toList) = true ∧
+    Proofs.Conf.isErrorAt 1 (parseConfig [] [] (fun _ => true) "maildir { \"/dev/stdin\" \"b\" \"/dev/stdin\" } { match all { match all reject } }".toUTF8.toList) = true := by
+  decide +kernel
 
 example : parseConfig [] [] (fun _ => true) "a = \"1\"\na = \"2\"\nstdin { match all move \"${a}\" }".toUTF8.toList = .error 2 :=
   Proofs.Conf.error_of_isErrorAt (by decide +kernel)
